@@ -270,6 +270,11 @@ def run_case(ctx, idx):
             sel = int(m.sum()) if filtered else n
             case = {"src": desc, "mask": np.flatnonzero(m).tolist(), "features": feats,
                     "filtered": filtered, "logs": lg, "tables": tb}
+            if rng.random() < 0.5:
+                # the client looked at some of the data before exporting
+                from vmon.gen.touch import client_touch
+                case["touched_before"] = client_touch(
+                    rng, ds, avail, ctx, p=0.4, trace_ok=kind != "tdms")
             if rng.random() < 0.15:
                 # an earlier attempt of the same export was interrupted by the user (Ctrl-C
                 # while the k-th feature was written); whatever it left behind, the repeated
